@@ -686,6 +686,27 @@ Fixpoint del_loop (fuel : nat) (victims : list ptr) (cx : list ptr) (st0 : store
       end
   end.
 
+(* from_entries: every item must be a map with exactly one `key` (a string here) and one `value` entry *)
+Fixpoint entries_of_items (l : list (rkey * node)) (acc : list (str * node)) : res (list (str * node)) :=
+  match l with
+  | [] => Ok acc
+  | (_, Map ent) :: r =>
+      match find_key ent [107; 101; 121] O, find_key ent [118; 97; 108; 117; 101] O with
+      | [i], [j] =>
+          match nth_error ent i, nth_error ent j with
+          | Some (_, Scalar TStr k), Some (_, v) => entries_of_items r (acc ++ [(k, v)])
+          | Some (_, Scalar _ _), Some _ => Unsup      (* non-string keys *)
+          | _, _ => Unsup
+          end
+      | _, _ => Err
+      end
+  | _ :: _ => Unsup
+  end.
+
+(* assignUpdateFunc: UpdateFrom on the LHS match, which is also the result *)
+Definition assign_calc : cross_calc :=
+  lift2 (fun st1 a b => let* st2 := update_from st1 a b in Ok ([a], st2)).
+
 (* one `key: value` pair of an object construction, as a single-entry map *)
 Definition pair_calc (st : store) (k v : ptr) : res out :=
   let* kn := deref_r st k in
@@ -955,22 +976,7 @@ Fixpoint eval (fuel : nat) (e : expr) (ro : bool) (vs : vars) (ctx : list ptr) (
                 let* n := deref_r st0 c in
                 match n with
                 | Seq items =>
-                    let* es :=
-                      (fix build (l : list (rkey * node)) (acc : list (str * node)) : res (list (str * node)) :=
-                         match l with
-                         | [] => Ok acc
-                         | (_, Map ent) :: r =>
-                             match find_key ent [107; 101; 121] O, find_key ent [118; 97; 108; 117; 101] O with
-                             | [i], [j] =>
-                                 match nth_error ent i, nth_error ent j with
-                                 | Some (_, Scalar TStr k), Some (_, v) => build r (acc ++ [(k, v)])
-                                 | Some (_, Scalar _ _), Some _ => Unsup      (* non-string keys *)
-                                 | _, _ => Unsup
-                                 end
-                             | _, _ => Err
-                             end
-                         | _ :: _ => Unsup
-                         end) items [] in
+                    let* es := entries_of_items items [] in
                     one (alloc_repl st0 c (Map es))
                 | _ => Err
                 end) ctx st
@@ -1146,7 +1152,7 @@ Fixpoint eval (fuel : nat) (e : expr) (ro : bool) (vs : vars) (ctx : list ptr) (
         let* o0 := ev l ro vs ctx st in
         (* ... then the cross product, read-only, re-evaluating both sides per context node *)
         let* o1 := cross ev false no_short
-                         (lift2 (fun st1 a b => let* st2 := update_from st1 a b in Ok ([a], st2)))
+                         assign_calc
                          l r true vs ctx (snd o0) in
         Ok (ctx, snd o1)
     | EUpdate l r =>
@@ -1167,7 +1173,7 @@ Fixpoint eval (fuel : nat) (e : expr) (ro : bool) (vs : vars) (ctx : list ptr) (
                            (* ref(c) = ref(clone) op r, evaluated in the caller's context *)
                            let x := [36; 99] in
                            let* oc := cross ev false no_short
-                                        (lift2 (fun st2 a b => let* st3 := update_from st2 a b in Ok ([a], st3)))
+                                        assign_calc
                                         (EVar [36; 108]) (EBin o (EVar x) r) true (([36; 108], [c]) :: (x, [cp]) :: vs) ctx st1 in
                            Ok (tt, snd oc)) (fst o0) tt (snd o0) in
         Ok (ctx, snd rr)
